@@ -61,7 +61,7 @@ def gen_cfg(tmp, kind, n, st, maxlen):
     with open(path, "w") as f:
         f.write('CONSTANTS\n  N = %d\n  Kind = "%s"\n  Ops = {"o1", "o2", "o3"}\n  FileOps = {"o3"}\n'
                 '  SrcType = "%s"\n  MaxPend = 3\n  MaxH = %d\n  ResetProvides = TRUE\n  TakeEmptiesSlot = TRUE\n'
-                '  DropReturnsQueued = TRUE\n  MaxLen = %d\n  AllowClose = %s\nSPECIFICATION GSpec\nINVARIANTS EmitInv\n'
+                '  DropReturnsQueued = TRUE\n  KeyRaceDev = TRUE\n  MaxLen = %d\n  AllowClose = %s\nSPECIFICATION GSpec\nINVARIANTS EmitInv\n'
                 % (n, kind, st, n + 1, maxlen, "FALSE" if st == "dgram" else "TRUE"))
     return path
 
@@ -165,7 +165,9 @@ def model_check(run, tier):
         vlib.require_model_ok(r, "BufferPool/" + c)
         if c in safety:
             z = set(vlib.zero_actions(r))
-            z -= {"ExhaustedAtSubmit"} if "ring" in c else ring_only
+            z -= {"ExhaustedAtSubmit", "KeyRefcountRace"} if "ring" in c else ring_only
+            if c == "fallback1":
+                z -= {"KeyRefcountRace"}            # no file operation in that configuration
             if z:
                 raise vlib.ToolError("BufferPool/%s: actions never taken: %s" % (c, sorted(z)))
         run.add_model("BufferPool/" + c, r)
@@ -175,6 +177,13 @@ def model_check(run, tier):
             raise vlib.ToolError("control %s: the model with one mechanism switched off should violate Safe, got %s / %s" %
                                  (c, r.violated, r.error))
     run.note("model_controls_violate_invariant", muts)
+    # the recorded deviation (KeyRefcountRace) is what breaks the strict invariant, and only it
+    r = vlib.tlc("BufferPool", "MC_BufferPool_fallback_strict.cfg", workers=2, timeout=900, coverage=False)
+    if r.violated != "SafeStrict":
+        raise vlib.ToolError("strict control: the model with the recorded deviation should violate SafeStrict, got %s / %s" % (r.violated, r.error))
+    r = vlib.tlc("BufferPool", "MC_BufferPool_fallback_fixed.cfg", workers=2, timeout=900, coverage=False)
+    vlib.require_model_ok(r, "BufferPool/fallback_fixed (deviation switched off)")
+    run.note("deviation_KeyRefcountRace", "strict invariant violated with it, holds without it")
 
 
 def run(run, tier, replay_path):
@@ -291,6 +300,22 @@ def run(run, tier, replay_path):
                 classify(run, s, d, "in-flight completions %s %s" % (leg, src), {"leg": leg, "src": src, "bl": 4, "free": True})
                 run.add_traces(s["cases"])
         run.note("shaped_in_flight_programs", 40 * 4)
+
+        # 4c. steered interleaving for the recorded defect C07-key-refcount-race (polling driver): a thread-pool
+        #     job is held at hook blocking.done until the proactor is gone; k=0: the user's key goes first, the
+        #     pool thread then drops the last reference (deterministic: the op is freed off the driver thread);
+        #     k=1: both drop at the same moment (non-atomic reference count: now and then the op is never freed)
+        steer = os.path.join(tmp, "steer.jsonl")
+        natt = 600 if quick else 3000
+        with open(steer, "w") as f:
+            for i in range(20 + natt):
+                f.write(json.dumps({"kind": "fallback", "n": 2, "maxh": 3, "files": ["o3"], "final": {"st": {"o3": "idle"}}, "steps": [
+                    st("feed", "o3", 0, 1), st("race_release", "o3", 0, 0 if i < 20 else 1)]}) + "\n")
+        s, d = replay(steer, "drv", "pipe", 4, True, tmp)
+        classify(run, s, d, "steered pool-thread key drop", {"leg": "drv", "src": "pipe", "bl": 4, "free": True})
+        run.add_traces(s["cases"])
+        run.note("steered_key_drop", {"attempts_simultaneous_drop": natt, "ops_freed_off_the_driver_thread": s.get("foreign_thread_frees"),
+                                      "leaks_observed": sum(p["count"] for p in s["problems"] if p["sig"].get("holder") == "op-dropped-off-driver-thread")})
 
         # 5. negative controls (pointless once violations were found: they would only mask them with a tool error)
         if run.violations:
